@@ -119,7 +119,12 @@ fn b64(bytes: &[u8]) -> String {
   base64::encode(bytes)
 }
 
-const MALFORMED: [&str; 41] = [
+const MALFORMED: [&str; 46] = [
+  "add_b64_other_spelling",
+  "add_b64_short_text",
+  "eval_token_soup",
+  "eval_token_soup",
+  "eval_token_soup",
   "eval_builtin_on_odd_values",
   "eval_builtin_on_odd_values",
   "eval_builtin_on_odd_values",
@@ -484,6 +489,34 @@ fn build_request(s: &Setup, r: &Value) -> Built {
           op: Op::MaybeAdd(m.to_string()),
           label: label.clone(),
         },
+        // the same model in another spelling of base64 (no padding, line breaks, the URL-safe alphabet, padding
+        // in the middle): the service may take it or refuse it
+        "add_b64_other_spelling" => {
+          let good = b64(xml(m).as_bytes());
+          let content = match pu64(r, "n") % 6 {
+            0 => good.trim_end_matches('=').to_string(),
+            1 => format!("{}=", good.trim_end_matches('=')),
+            2 => good.as_bytes().chunks(76).map(|c| String::from_utf8_lossy(c).to_string()).collect::<Vec<_>>().join("\r\n"),
+            3 => good.replace('+', "-").replace('/', "_"),
+            4 => format!(" {} ", good),
+            _ => format!("{}===={}", &good[..good.len() / 2 / 4 * 4], &good[good.len() / 2 / 4 * 4..]),
+          };
+          Built {
+            method: "POST",
+            path: "/definitions/add".into(),
+            content_type: js,
+            body: json!({"content": content}).to_string().into_bytes(),
+            op: Op::MaybeAdd(m.to_string()),
+            label: label.clone(),
+          }
+        }
+        // base64 texts of every length from 1 to 9 characters, padded and not
+        "add_b64_short_text" => {
+          let n = pu64(r, "n");
+          let text: String = "QUJDREVGR0g".chars().take(1 + (n % 9) as usize).collect();
+          let content = if n % 2 == 0 { text } else { format!("{}=", text) };
+          raw("POST", if n % 3 == 0 { "/definitions/replace" } else { "/definitions/add" }, js, json!({"content": content}).to_string().into_bytes(), true)
+        }
         "add_empty_body" => raw("POST", "/definitions/add", js, vec![], true),
         "replace_broken_json" => raw("POST", "/definitions/replace", js, b"[1, 2".to_vec(), true),
         "replace_invalid_base64" => raw("POST", "/definitions/replace", js, b"{\"content\": \"%%%\"}".to_vec(), true),
@@ -542,6 +575,23 @@ fn build_request(s: &Setup, r: &Value) -> Built {
           path: format!("/evaluate/{}/echo_s", percent_encode(&model_name(m))),
           content_type: None,
           body: builtin_on_odd_values(pu64(r, "g")).into_bytes(),
+          op: Op::EvalAny(model_name(m)),
+          label: label.clone(),
+        },
+        // the FEEL vocabulary strung together: nearly always a syntax error, to be answered as one
+        "eval_token_soup" => Built {
+          method: "POST",
+          path: format!("/evaluate/{}/echo_s", percent_encode(&model_name(m))),
+          content_type: None,
+          body: {
+            let g = pu64(r, "g");
+            match g % 3 {
+              0 => format!("{{s: {}}}", crate::jsonval::feel_token_soup(g)),
+              1 => format!("{{a: 1, b: [1, 2], x: \"v\", s: string({})}}", crate::jsonval::feel_token_soup(g)),
+              _ => crate::jsonval::feel_token_soup(g),
+            }
+            .into_bytes()
+          },
           op: Op::EvalAny(model_name(m)),
           label: label.clone(),
         },
